@@ -19,7 +19,7 @@ COLS = ["x", "y", "k"]
 # tables and batches
 # ---------------------------------------------------------------------------
 
-def make_df(rows, start=0, dtype="float"):
+def make_df(rows, start=0, dtype="float", index="range"):
     data = {}
     for j, c in enumerate(COLS):
         vals = [r[j] for r in rows]
@@ -27,16 +27,20 @@ def make_df(rows, start=0, dtype="float"):
             data[c] = np.array(vals, dtype="int64") if vals else np.array([], dtype="int64")
         else:
             data[c] = np.array([np.nan if v is None else float(v) for v in vals], dtype="float64")
-    return pd.DataFrame(data, index=pd.RangeIndex(start, start + len(rows)), columns=COLS)
+    if index == "time":       # one row per second from the epoch: unique, increasing DatetimeIndex
+        idx = pd.to_datetime(list(range(start, start + len(rows))), unit="s")
+    else:
+        idx = pd.RangeIndex(start, start + len(rows))
+    return pd.DataFrame(data, index=idx, columns=COLS)
 
 
-def example_df(dtype="float", kind="row"):
+def example_df(dtype="float", kind="row", index="range"):
     """the `example` given to the streaming DataFrame (never fed to the stream; streamz uses it to compute
     output types).  kind "row": one row that passes the filters used here; "empty": no rows, as in streamz' own
     tests (`example=pd.DataFrame({'name': [], 'amount': []})`)."""
     if kind == "empty":
-        return make_df([], start=0, dtype=dtype)
-    return make_df([[9, 9, 1]], start=-1, dtype=dtype)
+        return make_df([], start=0, dtype=dtype, index=index)
+    return make_df([[9, 9, 1]], start=-1 if index == "range" else 0, dtype=dtype, index=index)
 
 
 def split_rows(rows, sizes):
@@ -48,8 +52,8 @@ def split_rows(rows, sizes):
     return out
 
 
-def batches_of(rows, sizes, dtype="float"):
-    return [make_df(rs, start=pos, dtype=dtype) for pos, rs in split_rows(rows, sizes)]
+def batches_of(rows, sizes, dtype="float", index="range"):
+    return [make_df(rs, start=pos, dtype=dtype, index=index) for pos, rs in split_rows(rows, sizes)]
 
 
 def compositions(n):
